@@ -28,7 +28,8 @@ SPEC = dict(
              "whose bytes start with a registered id); normalize(v) = v when no content starts with a registered id (decidable side "
              "condition); a content that is one / several serialised well-typed objects becomes that object's own normal form / the "
              "list of them. For tables without a cycle of bare references (checked for the bundled table: depth 5) recursion depth "
-             "(len/4+1)(R+2) suffices for any input, so the auto round trip holds with that explicit budget. The framing lemma holds "
+             "(len/4+1)(R+2) suffices for any input, so the auto round trip holds with that explicit budget; for every table a parse "
+             "that returns keeps its result under any larger budget. The framing lemma holds "
              "for every string length; BlockIdExt byte/dict conversions are lossless and equal ids hash equally. The hand-written "
              "model is tied to the code by differential testing on every covered constructor, including contents built from nested "
              "objects, lists, foreign tails and strings with a registered prefix.",
